@@ -58,7 +58,8 @@ Print Assumptions reachable_layouts_valid.
 
 Definition ex_cfg : dbcfg := mkDbCfg 19 1000000 6 (mkCfg 2 200 1 30).
 Definition ex_acts : list act :=
-  [ APut [97] [49; 49]; AF1; AF2; APut [98] [50; 50]; AF1; AF2; AC1; AC2; AC1; AC2; ADel [97]; AF1; AF2; APut [99] [51; 51]; AF1; AF2 ].
+  [ APut [97] [49; 49]; AF1; AF2; APut [98] [50; 50]; AF1; AF2; AC1; AC2; AC1; AC1; ADel [97]; APut [99] [51; 51]; AF1; AF2;
+    APut [98] [53; 53]; AF1; AF2 ].
 Definition ex_state : option db := option_map fst (run ex_cfg (init ex_cfg) ex_acts).
 
 Example ex_cfg_ok : cfg_ok ex_cfg /\ good_cfg (d_comp ex_cfg).
@@ -67,12 +68,12 @@ Proof. unfold cfg_ok, good_cfg, ex_cfg. cbn. repeat split; lia. Qed.
 Example ex_layout_valid_and_compacts :
   exists st cs m, ex_state = Some st /\ valid (lv st) /\ length (hd [] (lv st)) = 2%nat /\
                   compact table_size (d_comp ex_cfg) (mcl st) (lv st) = (Some cs, m) /\
-                  valid (add_l0 [[mkE [100] 9 false [52]]] (lv st)).
+                  valid (add_l0 [[mkE [100] 6 false [52; 52]]] (lv st)).
 Proof.
   destruct (run ex_cfg (init ex_cfg) ex_acts) as [[st os]|] eqn:E; [|vm_compute in E; discriminate].
   pose proof (reachable_valid_proof _ _ _ _ (proj1 ex_cfg_ok) E) as Hv.
   (* one more write + flush gives the extended layout; it is reachable, hence valid *)
-  pose (more := ex_acts ++ [APut [100] [52]; AF1; AF2]).
+  pose (more := ex_acts ++ [APut [100] [52; 52]; AF1; AF2]).
   destruct (run ex_cfg (init ex_cfg) more) as [[st2 os2]|] eqn:E2; [|vm_compute in E2; discriminate].
   pose proof (reachable_valid_proof _ _ _ _ (proj1 ex_cfg_ok) E2) as Hv2.
   vm_compute in E. injection E as <- _. vm_compute in E2. injection E2 as <- _.
